@@ -49,12 +49,14 @@ impl<'a> Sim<'a> {
                 for _ in 0..k {
                     self.probe_redact();
                 }
+                self.probe_crypto_cross_version();
             }
             "C03" | "C05" => {
                 for _ in 0..k.div_ceil(2) {
                     self.probe_redact();
                 }
                 self.probe_sign();
+                self.probe_crypto_cross_version();
             }
             "C06" | "C07" => {
                 if self.t.chance(1, 3) {
@@ -645,7 +647,27 @@ impl<'a> Sim<'a> {
     /// event's state-before and authorisation are computed by the reference models), resolved in
     /// random subsets through the same oracles as everything else. Complements the federation
     /// histories with DAG shapes they reach rarely (sibling power-level events, deep forks, ties).
+    /// Run `f` with another room version's rules in force (a homeserver thread serves rooms of every
+    /// version; nothing may carry over between calls).
+    fn with_version(&mut self, v: u8, f: impl FnOnce(&mut Self)) {
+        let (saved_rules, saved_v) = (self.rules.clone(), self.cfg.v);
+        self.rules = real::rules(v);
+        self.cfg.v = v;
+        f(self);
+        self.rules = saved_rules;
+        self.cfg.v = saved_v;
+    }
+
     pub fn probe_synthetic_room(&mut self, n: usize) {
+        if self.t.chance(1, 2) {
+            let v = 1 + self.t.below(11) as u8;
+            self.bump("probe.synthetic-room-other-version");
+            return self.with_version(v, |me| me.probe_synthetic_room_inner(n));
+        }
+        self.probe_synthetic_room_inner(n)
+    }
+
+    fn probe_synthetic_room_inner(&mut self, n: usize) {
         let v = self.cfg.v;
         let host = *self.t.pick(&["synth.example", "synth.test:8448", "10.0.0.9"]);
         let room = format!("!synth{}:{host}", self.t.below(50));
@@ -793,6 +815,92 @@ impl<'a> Sim<'a> {
         for idd in inserted {
             self.servers[n].dag.remove(&idd);
             self.servers[n].have.remove(&idd);
+        }
+    }
+
+    /// Hash, sign, verify and hash-reference a small event under a tape-chosen room version (often not
+    /// the run's own), on this thread and on a fresh thread; everything is compared with the models.
+    pub fn probe_crypto_cross_version(&mut self) {
+        let v = 1 + self.t.below(11) as u8;
+        let n = self.t.index(self.servers.len());
+        let name = self.servers[n].name.clone();
+        let sender = self.servers[n].users[0].clone();
+        let (ty, sk, content): (&str, Option<String>, J) = match self.t.below(6) {
+            0 => ("m.room.create", Some(String::new()), o(vec![("creator", J::Str(sender.clone())), ("room_version", J::Str(v.to_string())), ("x", J::Int(1))])),
+            1 => ("m.room.member", Some(sender.clone()), o(vec![("membership", J::s("join")), ("join_authorised_via_users_server", J::Str(sender.clone())), ("displayname", J::s("d"))])),
+            2 => ("m.room.power_levels", Some(String::new()), o(vec![("invite", J::Int(1)), ("users", o(vec![(sender.as_str(), J::Int(100))])), ("notifications", o(vec![("room", J::Int(5))]))])),
+            3 => ("m.room.redaction", None, o(vec![("redacts", J::s("$x:y")), ("reason", J::s("r"))])),
+            4 => ("m.room.aliases", Some(name.clone()), o(vec![("aliases", J::Arr(vec![J::s("#a:b")]))])),
+            _ => ("m.room.message", None, gen::message_content(self.t)),
+        };
+        let mut m: BTreeMap<String, J> = BTreeMap::new();
+        m.insert("type".into(), J::s(ty));
+        m.insert("sender".into(), J::Str(sender.clone()));
+        m.insert("room_id".into(), J::Str(self.room_id.clone()));
+        m.insert("content".into(), content);
+        m.insert("origin_server_ts".into(), J::Int(1_600_000_000_000 + self.t.below(1000) as i64));
+        m.insert("depth".into(), J::Int(3));
+        m.insert("prev_events".into(), J::Arr(vec![]));
+        m.insert("auth_events".into(), J::Arr(vec![]));
+        m.insert("origin".into(), J::Str(name.clone()));
+        m.insert("redacts".into(), J::s("$top:level"));
+        if let Some(k) = sk {
+            m.insert("state_key".into(), J::Str(k));
+        }
+        if v <= 2 {
+            m.insert("event_id".into(), J::Str(format!("$cv{}:{name}", self.t.below(100_000))));
+        }
+        let before = J::Obj(m);
+        let key = revent::SignKey::from_seed(self.servers[n].seed, &self.servers[n].key_version);
+        let mut want = before.clone();
+        if !matches!(revent::hash_and_sign_event(&mut want, &name, &key, v), revent::HashResult::Ok(())) {
+            return;
+        }
+        let want_ref = revent::reference_hash(&want, v);
+        let Ok(kp) = real::keypair(&self.servers[n].seed, &self.servers[n].key_version) else { return };
+        let rules = real::rules(v);
+        let Some(obj0) = conv::j_to_obj(&before) else { return };
+        let keymap = self.key_map.clone();
+        let run = |obj0: &ruma_common::CanonicalJsonObject| -> (Outcome<()>, J, Outcome<ruma_signatures::Verified>, Outcome<String>) {
+            let mut obj = obj0.clone();
+            let r = real::hash_and_sign_event(&name, &kp, &mut obj, &rules);
+            let ver = real::verify_event(&keymap, &obj, &rules);
+            let rh = real::reference_hash(&obj, &rules);
+            (r, conv::obj_to_j(&obj), ver, rh)
+        };
+        let here = run(&obj0);
+        // the same calls on a fresh thread with its own hash keys
+        let seed = self.t.u64();
+        let there = std::thread::scope(|sc| {
+            sc.spawn(|| {
+                simcore::hashseed::set_thread_seed(seed);
+                run(&obj0)
+            })
+            .join()
+            .ok()
+        });
+        self.bump("crypto.cross-version-probes");
+        let ty_s = ty.to_string();
+        for (site, got) in [("this-thread", Some(here)), ("fresh-thread", there)] {
+            let Some((r, signed, ver, rh)) = got else {
+                self.violate("C03", format!("rsig/panic.thread.{ty_s}"), json!({"site":site}));
+                return;
+            };
+            if !r.is_ok() || signed != want {
+                let prop = if signed.get("hashes") != want.get("hashes") { "C05" } else { "C03" };
+                self.violate(prop, format!("rsig/cross-version.hash_and_sign_event.v{v}.{ty_s}.{site}"), json!({"oracle":"rsig+rredact","room_version":v,"run_room_version":self.cfg.v,"site":site,"real_result":format!("{r:?}"),"real":clip(&rj::canonical(&signed)),"expected":clip(&rj::canonical(&want))}));
+                return;
+            }
+            if ver != Outcome::Ok(ruma_signatures::Verified::All) {
+                self.violate("C03", format!("rsig/cross-version.verify_event.v{v}.{ty_s}.{site}"), json!({"oracle":"rsig","room_version":v,"site":site,"real":format!("{ver:?}"),"expected":"All","event":clip(&rj::canonical(&want))}));
+                return;
+            }
+            if let revent::HashResult::Ok(wr) = &want_ref {
+                if rh != Outcome::Ok(wr.clone()) {
+                    self.violate("C05", format!("rsha/cross-version.reference-hash.v{v}.{site}"), json!({"oracle":"rsha+rredact","room_version":v,"site":site,"real":format!("{rh:?}"),"expected":wr,"event":clip(&rj::canonical(&want))}));
+                    return;
+                }
+            }
         }
     }
 
